@@ -250,10 +250,10 @@ def main():
         "version": 1,
         "setup_cmd": "./setup.sh",
         "hooks": {
-            "guard": "cfg(simple_dns_verif)",
-            "enable": "rustflags --cfg simple_dns_verif, set in /verif/harness/.cargo/config.toml; the harness path-depends on /repo/simple-dns and /repo/simple-mdns so every check rebuilds from /repo's working tree",
+            "guard": "cfg(simple_dns_verif); the compression-table recorder additionally needs cfg(simple_dns_verif_table)",
+            "enable": "rustflags --cfg simple_dns_verif --cfg simple_dns_verif_table, set in /verif/harness/.cargo/config.toml; the harness path-depends on /repo/simple-dns and /repo/simple-mdns so every check rebuilds from /repo's working tree",
             "baseline_off_cmd": "cd /repo && cargo nextest run --workspace --no-fail-fast --offline",
-            "source_commits": ["3c6170d", "559c3ac", "d33084c", "a3f006f"],
+            "source_commits": ["3c6170d", "559c3ac", "d33084c", "a3f006f", "1b17e8b", "6af301b"],
             "add_only": True,
         },
         "engines": [
